@@ -37,10 +37,13 @@ PRIV = ["_p", "_io", "_", "_flagsenum"]
 # ------------------------------------------------------------ plain model <-> library objects
 # model tree: ("C", [(k, node), ...]) Container ; ("L", [node...]) ListContainer ; ("l", [...]) plain list ;
 #             ("d", [(k,node)...]) plain dict ; ("v", value)
+NAN = float("nan")        # one object: a value that is not equal to itself
+
+
 def gen_tree(rng, depth, allow_plain=True):
     r = rng.random()
     if depth <= 0 or r < 0.35:
-        return ("v", rng.choice([0, 1, 2, 7, -1, 255, None, True, False, b"", b"ab", "s", "", 1.5, 0.0, 2 ** 70]))
+        return ("v", rng.choice([0, 1, 2, 7, -1, 255, None, True, False, b"", b"ab", "s", "", 1.5, 0.0, 2 ** 70, NAN]))
     if r < 0.75:
         n = rng.randint(0, 4)
         keys = []
@@ -117,7 +120,7 @@ def ref_eq(t1, t2):
     if k1 in ("L", "l") and k2 in ("L", "l"):
         return len(t1[1]) == len(t2[1]) and all(ref_eq(a, b) for a, b in zip(t1[1], t2[1]))
     if k1 == "v" and k2 == "v":
-        return t1[1] == t2[1]
+        return t1[1] is t2[1] or t1[1] == t2[1]       # (as dict and list equality do: identical objects are equal, e.g. one NaN object)
     return False
 
 
@@ -352,7 +355,12 @@ def check_copy(ctx, c, how, case):
     if c2 is c:
         ctx.violation("copy-is-original:" + hk, "%s returned the same object" % how, case)
         return None
-    if not (c2 == c) or not (c == c2) or deep_model(c2) != before:
+    # (a pickle round trip makes a new object of a value that is not equal to itself: such a copy equals the original neither as a
+    #  Container nor as a plain dict - the entries are then compared by their text)
+    nan_apart = hk.startswith("pickle") and "nan" in repr(before)
+    if nan_apart:
+        ctx.count("pickle_copies_with_nan_compared_by_text")
+    if ((not (c2 == c) or not (c == c2) or deep_model(c2) != before) and not nan_apart) or (nan_apart and repr(deep_model(c2)) != repr(before)):
         ctx.violation("copy-not-equal:" + hk, "%s result differs from the original" % how, case)
         return None
     if list(C.keys(c2)) != list(C.keys(c)):
@@ -511,16 +519,12 @@ def check_search(ctx, rng, t):
         wv = [realise(w) for w in want]
         if len(got_all) != len(wv) or any(repr(a) != repr(b) for a, b in zip(got_all, wv)):
             ctx.violation("search_all-differs", "search_all(%r) = %r, reference traversal = %r" % (p, got_all, wv), case)
-        # first-match: the first reference match whose value is not None (None cannot be told from 'no match')
-        first = None
-        for w in wv:
-            if w is not None:
-                first = w
-                break
-        allnone_before = True
+        # first-match: exactly the first entry of the traversal, also when its value is None (search() then returns None, as it does
+        # when nothing matches; what it must not do is skip that entry and return a later one)
+        first = wv[0] if wv else None
         if wv and wv[0] is None:
-            ctx.count("search_first_match_is_None_skipped")
-        elif repr(got_one) != repr(first):
+            ctx.count("search_first_match_is_None")
+        if repr(got_one) != repr(first):
             ctx.violation("search-first-differs", "search(%r) = %r, first match in traversal order = %r" % (p, got_one, first), case)
         if wv:
             ctx.count("searches_with_matches")
@@ -545,7 +549,7 @@ def check_listcontainer(ctx, rng):
     for how in ("copy.copy", "deepcopy", "pickle2"):
         try:
             y = copy.copy(x) if how == "copy.copy" else copy.deepcopy(x) if how == "deepcopy" else pickle.loads(pickle.dumps(x, 2))
-            if type(y) is not ListContainer or not (y == x) or y is x:
+            if type(y) is not ListContainer or not ((y == x) or (how == "pickle2" and "nan" in repr(x) and repr(y) == repr(x))) or y is x:
                 ctx.violation("listcontainer-copy:" + how, "copy of ListContainer not equal / wrong type", case)
         except Exception as e:
             ctx.violation("listcontainer-copy-raises:" + how, repr(e), case)
